@@ -206,6 +206,7 @@ def gen_case(rng, *, n_ops, listeners=True, waits=True, attach=False, weird=Fals
         ops.append(['att', attacher])
     registered = []            # local ports of via-circuit connections whose stream has not shown up
     consumed = []              # local ports whose registration was used up by a stream (the port may be reused later)
+    unanswered = []            # local ports of via-circuit connections whose SOCKS request is still unanswered
     if via:
         ops.append(['att', 0])
         attacher = 0
@@ -228,8 +229,18 @@ def gen_case(rng, *, n_ops, listeners=True, waits=True, attach=False, weird=Fals
             k = rng.random()
             if built_oids and k < 0.5:
                 w.port += 1
-                registered.append(w.port)
-                ops.append(['via', rng.choice(built_oids), '127.0.0.1', w.port])
+                if rng.random() < 0.3:
+                    # the SOCKS request stays unanswered for now (and will fail)
+                    unanswered.append(w.port)
+                    ops.append(['viap', rng.choice(built_oids), '127.0.0.1', w.port])
+                else:
+                    registered.append(w.port)
+                    ops.append(['via', rng.choice(built_oids), '127.0.0.1', w.port])
+                continue
+            if unanswered and k < 0.65:
+                port = unanswered.pop(rng.randrange(len(unanswered)))
+                ops.append(['vialost', '127.0.0.1', port])
+                registered.append(port)       # what it registered stays: a stream from that port would still be recognised
                 continue
             if registered and k < 0.9:
                 # the stream of one of those connections shows up (in any order), or an unrelated one on a neighbouring port
@@ -383,6 +394,7 @@ class Spec:
         self.attacher = None
         self.asked = {}
         self.targets = {}                      # (local address, port) -> (circuit object, Deferred) of connections made through a circuit
+        self.ghosts = set()                    # Deferreds nobody holds (left in the registry by a connection that failed)
         self.outs, self.cmds = [], []
 
     # helpers
@@ -394,7 +406,8 @@ class Spec:
 
     def fire(self, dids, ok):
         for d in dids:
-            self.outs.append(['f', d, 1 if ok else 0])
+            if d not in self.ghosts:
+                self.outs.append(['f', d, 1 if ok else 0])
 
     def new_d(self):
         d = self.next_d
@@ -640,13 +653,22 @@ class Spec:
             so = self.asked.pop(op[1], None)
             if so is not None:
                 self.decide(so, op[2])
-        elif k == 'via':
+        elif k in ('via', 'viap'):
             c = self.cobj[op[1]]
             d = self.new_d()
             if c['built'] is True:
                 self.targets[(op[2], op[3])] = (op[1], d)
             else:
                 self.fire([d], False)
+        elif k == 'vialost':
+            # the connection fails, once; what it registered stays (its stream, should Tor still report one, goes to that circuit
+            # and to no other) and no other connection is disturbed
+            reg = self.targets.get((op[1], op[2]))
+            if reg is not None:
+                self.fire([reg[1]], False)
+                g = self.new_d()
+                self.ghosts.add(g)
+                self.targets[(op[1], op[2])] = (reg[0], g)
 
     def view(self):
         cs = {}
@@ -821,7 +843,7 @@ def make_run_cases(tagger, project):
             model = corr_ok = None
             if outs is not None:
                 a, n, marks = spans[k]
-                model = tstate.canon_trace(merge_groups(tstate.parse_model(outs[a:a + n], marks, c), expanded[k][1], len(c['ops'])))
+                model = tstate.canon_trace(merge_groups(tstate.parse_model(outs[a:a + n], marks, expanded[k][0]), expanded[k][1], len(c['ops'])))
                 corr_ok = tstate.canon_trace(im) == model
             in_h = c.get('in_h', True)
             spec = view = prop_ok = None
